@@ -1,3 +1,4 @@
+CONSTANT MCSet = "all"
 INIT MInit
 NEXT MNext
 INVARIANTS TypeOK KeyEnforced GetIsReadOnly OnlyGetReveals BadMethodRefused DeliveredOnlyAsDeserved MalformedRejected
